@@ -138,27 +138,40 @@ class BNCase:
         shape = tuple(sp["shape"])
         C = shape[1]
         cls = nn.BatchNorm2d if len(shape) == 4 else nn.BatchNorm1d
-        eps = env.scalar("eps", lo=0, hi=0.5, lo_strict=True, kind="data")
-        if sp["momentum"] is None or isinstance(sp["momentum"], float):
-            mom = sp["momentum"]          # None (cumulative average) or an exact end point: 0.0 freezes, 1.0 replaces
-        else:
-            mom = env.scalar("mom", lo=0, hi=1, lo_strict=True, hi_strict=True, kind="data")
-        m = cls(C, eps=eps, momentum=mom, affine=sp["affine"], track_running_stats=sp["track"])
         out = E.Outcome()
-        gam = bet = None
-        if sp["affine"]:
-            gam = env.arr("gamma", (C,))
-            bet = env.arr("beta", (C,))
-            m.weight = nn.Parameter(Tn(gam, requires_grad=True))
-            m.bias = nn.Parameter(Tn(bet, requires_grad=True))
-        rm = rv = None
-        if sp["track"]:
-            rm0 = env.arr("rm", (C,))
-            rv0 = env.arr("rv", (C,), lo=0.1, hi=3)
-            m.running_mean = Tn(rm0)
-            m.running_var = Tn(rv0)
-            rm = [rm0[c] for c in range(C)]
-            rv = [rv0[c] for c in range(C)]
+        if sp.get("default"):
+            # the module exactly as its constructor leaves it: eps = 1e-5, momentum = 0.1, gamma = 1, beta = 0, running
+            # statistics 0 / 1, no batch seen yet
+            m = cls(C)
+            eps, mom = 1e-5, 0.1
+            sp = dict(sp, affine=True, track=True, momentum=0.1)
+            gam, bet = [1.0] * C, [0.0] * C
+            rm, rv = [0.0] * C, [1.0] * C
+            out.fact("a fresh module is in training mode with no batch tracked", m.training and m.num_batches_tracked == 0)
+            for nm_, arr_, want_ in (("weight", m.weight.data, np.ones(C)), ("bias", m.bias.data, np.zeros(C)),
+                                     ("running_mean", m.running_mean.data, np.zeros(C)), ("running_var", m.running_var.data, np.ones(C))):
+                out.pair("initial %s" % nm_, snapshot(arr_), want_)
+        else:
+            eps = env.scalar("eps", lo=0, hi=0.5, lo_strict=True, kind="data")
+            if sp["momentum"] is None or isinstance(sp["momentum"], float):
+                mom = sp["momentum"]          # None (cumulative average) or an exact end point: 0.0 freezes, 1.0 replaces
+            else:
+                mom = env.scalar("mom", lo=0, hi=1, lo_strict=True, hi_strict=True, kind="data")
+            m = cls(C, eps=eps, momentum=mom, affine=sp["affine"], track_running_stats=sp["track"])
+            gam = bet = None
+            if sp["affine"]:
+                gam = env.arr("gamma", (C,))
+                bet = env.arr("beta", (C,))
+                m.weight = nn.Parameter(Tn(gam, requires_grad=True))
+                m.bias = nn.Parameter(Tn(bet, requires_grad=True))
+            rm = rv = None
+            if sp["track"]:
+                rm0 = env.arr("rm", (C,))
+                rv0 = env.arr("rv", (C,), lo=0.1, hi=3)
+                m.running_mean = Tn(rm0)
+                m.running_var = Tn(rv0)
+                rm = [rm0[c] for c in range(C)]
+                rv = [rv0[c] for c in range(C)]
         nbt = 0
         training = True
         nf = 0
@@ -171,6 +184,8 @@ class BNCase:
                 m.eval()
                 training = False
                 continue
+            if sp.get("shapes"):          # the batch size changes from one forward to the next
+                shape = tuple(sp["shapes"][nf % len(sp["shapes"])])
             x = env.arr("x%d" % nf, shape)
             xt = Tn(x, requires_grad=True)
             before = (snapshot(m.running_mean.data), snapshot(m.running_var.data)) if sp["track"] else None
@@ -261,6 +276,10 @@ def enumerate_specs(tier):
                         specs.append({"kind": "bn", "shape": list(shape), "affine": affine, "track": track,
                                       "momentum": momentum, "history": h})
     specs.append({"kind": "bn", "shape": [2, 1, 1, 2], "affine": True, "track": True, "momentum": "s", "history": "fef"})
+    for shape in ([2, 2], [2, 1, 2], [2, 1, 1, 2]):
+        specs.append({"kind": "bn", "shape": shape, "default": True, "affine": True, "track": True, "momentum": 0.1, "history": "fef"})
+    specs.append({"kind": "bn", "shape": [2, 1], "shapes": [[2, 1], [3, 1]], "affine": True, "track": True, "momentum": "s", "history": "ffef"})
+    specs.append({"kind": "bn", "shape": [3, 1], "shapes": [[3, 1], [2, 1]], "affine": False, "track": True, "momentum": None, "history": "ff"})
     return specs
 
 
